@@ -76,8 +76,10 @@ impl Mesh1D<f64, f64> {
                 let delta_x: f64 = x_pos - self.nodes[ node ];
                 let left = self.get_nodes_vars( node );
                 let right = self.get_nodes_vars( node + 1 );
-                let deriv = (right - left.clone()) / ( self.nodes[ node + 1 ] - self.nodes[ node ] );
-                result = left + deriv * delta_x;
+                // Scale the increment by the fraction of the cell (not the slope by delta_x), so
+                // that the nodal values are reproduced exactly at both ends of the cell
+                let fraction: f64 = delta_x / ( self.nodes[ node + 1 ] - self.nodes[ node ] );
+                result = left.clone() + (right - left) * fraction;
             }
         }
         result
